@@ -1,5 +1,5 @@
 """Generic per-property pipeline:  MC -> Gen -> Go (real code) -> Trace validation -> verdict/evidence."""
-import json, os, re, sys, time
+import json, os, re, sys, time, zlib
 import vlib
 from vlib import log, MachineryError
 
@@ -69,10 +69,13 @@ def run(conf, tier, seed, replay=None):
                         raise MachineryError("Gen %s failed\n%s" % (cfg, vlib.tail(r.out)))
                     scripts = vlib.printed_json(r)
                     seen = set()
+                    nth = pick(g.get("sample", 1), tier) or 1
                     for s in scripts:
                         k = json.dumps(s, sort_keys=True)
                         if k in seen:
                             continue
+                        if nth > 1 and (zlib.crc32(k.encode()) + int(seed)) % nth != 0:
+                            continue     # seed-dependent 1/nth sample of an exhaustive enumeration
                         seen.add(k)
                         f.write(json.dumps(s) + "\n")
                         n += 1
